@@ -30,7 +30,8 @@ Kinds == {
   K("named-map-string", "record"), K("named-map-any", "record"),
   K("map-slice-elem", "coerce"), K("map-ptr-elem", "coerce"), K("map-struct-elem", "coerce"), K("map-iface-elem", "coerce-or-record"),
   K("map-int-key", "coerce"), K("map-any-key", "coerce"), K("map-named-string-key", "coerce-or-record"),
-  K("struct-exported", "record"), K("struct-unexported", "record"), K("struct-embedded", "record"), K("struct-empty", "record"),
+  K("struct-exported", "record"), K("struct-unexported", "record"), K("struct-embedded", "record"), K("struct-embedded-nil-ptr", "record"), K("struct-embedded-ptr", "record"), K("struct-empty", "record"),
+  K("ptr-ptr-nil-struct", "empty"), K("uint8", "coerce"), K("int16", "coerce"), K("named-int", "coerce"),
   K("ptr-struct", "record"), K("ptr-ptr-ptr-struct", "record"), K("ptr-map-any", "record"), K("ptr-int", "coerce"),
   K("bool", "coerce"), K("int", "coerce"), K("int8", "coerce"), K("uint64-max", "coerce"), K("float-nan", "coerce"), K("float-inf", "coerce"),
   K("complex", "coerce"), K("string", "coerce"), K("string-invalid-utf8", "coerce"), K("string-long", "coerce"), K("bytes", "coerce"),
@@ -39,7 +40,7 @@ Kinds == {
   K("json-empty-object", "empty"), K("json-object", "record"), K("json-array", "issue"), K("json-scalar", "issue"), K("json-null", "issue"), K("json-truncated", "issue"),
   K("form-valid", "record"), K("form-malformed", "issue"), K("query", "record"), K("env", "record") }
 
-Schemas == {"string", "int", "float", "bool", "time", "slice-int", "slice-struct", "struct", "struct-long-key", "ptr-struct", "ptr-int", "custom", "preprocess"}
+Schemas == {"string", "int", "float", "bool", "time", "slice-int", "slice-struct", "struct", "struct-cap", "struct-long-key", "ptr-struct", "ptr-int", "custom", "preprocess"}
 Positions == {"root", "field", "elem", "behind-ptr"}
 
 Rows == [kind : Kinds, schema : Schemas, pos : Positions]
